@@ -9,6 +9,10 @@ The oracle never looks at the Coq model. It judges what the implementation emitt
   * a brute-force python implementation of the reference semantics (stable models via the reduct, choice / disjunctive heads,
     weight bodies, externals, compute as filter, minimize cost per priority, shown names) is run on the ORIGINAL program and on
     the EMITTED program (decoded from the recorder output) and the two are compared through the atom mapping reported by get();
+  * the SAME comparison is run END TO END on the text the real SmodelsOutput wrote behind the real SmodelsConvert (modes 1, 2): the
+    text is read back by an independent python reader of the smodels numeric format (read_smodels: rule types 1 2 3 5 6 8 / 90 91 92,
+    symbol table, B+/B-, E) into the same program representation; signatures carry the prefix `text:` (the call-level judgement
+    cannot see which rule type the writer picks for a call or what it drops - seeded change C02-r3);
   * the mapping is checked directly (injective, >= 2, stable over the whole case, disjoint from auxiliary atoms);
   * errors: an independent statement of which inputs smodels cannot carry in the given mode;
   * lpconvert: stdout / exit status against the API path.
@@ -27,15 +31,20 @@ HELPER_PREFIXES = (b'_heuristic(', b'_edge(', b'_atom(')
 SEM_MAX_ATOMS = 13      # atoms of the emitted program up to which the brute-force comparison is run
 
 RULE = ('cases = (mode, clasp extensions on/off, a well-formed call sequence init/(begin, directives, end){1..3} with get/getName probes); '
-        'directives: rules with disjunctive/choice/empty heads x normal/weight bodies (bounds -2..sum+1, weights 0..3 and 2^31-1), minimize '
+        'directives: rules with disjunctive/choice/empty heads x normal/weight bodies (bounds -2..sum+1, weights 0..3 and 2^31-1; a dedicated stream of '
+        'weight bodies with all weights in {0,1}: all 1 / one 0 among 1s / all 0 / mixed, heads single / empty / choice / proper disjunction, bounds at '
+        '(number of 1s)+-1 and at the literal count, body atoms free, every atom shown), minimize '
         'with negative weights / repeated priorities / INT_MIN / INT_MAX, outputs with empty/negative/compound/repeated conditions and repeated '
         'names, externals of all four values before/after a defining rule and repeated, heuristic/edge/project/assume/theory for the error side; '
+        'in modes 1 and 2 the written smodels text is read back and judged like the emitted calls; '
         'non-trivial = the semantic comparison ran on a program with at least one stable model, or an expected error was observed, or lpconvert was compared; '
         'distinct = distinct case tuples')
 TRUSTED_BASE = ['props/C02.py reference semantics and brute-force enumerator (oracle on the implementation)',
+                'props/C02.py read_smodels: python reader of the smodels numeric format used to judge the written text',
                 'coq/C02/Sem.v reference semantics of ground programs (a definition, read it)',
                 'StringBuilder::appendFormat modelled as ideal sprintf; std::sort on <= 16 symbols = insertion sort (stable)',
-                'SmodelsOutput modelled only as an acceptance automaton (its text is C05); lpconvert text compared byte-for-byte with the API path by the oracle']
+                'SmodelsOutput modelled only as an acceptance automaton (its text is C05); the oracle reads the written text back and judges it semantically; '
+                'lpconvert text compared byte-for-byte with the API path by the oracle']
 ASSUMPTIONS = ['fewer than 2^28 smodels atoms are created (next_ < 2^28; beyond it the 28-bit smId field wraps) - hypothesis of every theorem',
                'input atoms small enough for atoms_.resize (memory), literals != INT_MIN, enum arguments within their enum',
                'rule-body weights >= 0 (aspif contract) for every semantic statement; names without NUL bytes',
@@ -302,6 +311,22 @@ def stable_models(P, atoms):
     return res
 
 
+_SM = {}
+
+
+def stable_models_memo(P, atoms):
+    """stable_models is a function of the rules up to the order of body literals (sums commute): the call-level program and the
+    program read back from the written text are usually equal in that sense, so the enumeration is shared"""
+    key = (tuple(sorted(atoms)),
+           tuple((ht, tuple(h), (b[0], tuple(sorted(b[1]))) if b[0] == 'n' else (b[0], b[1], tuple(sorted(b[2])))) for ht, h, b in P.rules),
+           tuple(sorted(P.ext.items())), tuple(P.assume))
+    if key not in _SM:
+        if len(_SM) > 20000:
+            _SM.clear()
+        _SM[key] = stable_models(P, atoms)
+    return _SM[key]
+
+
 def holds(l, S):
     return (l in S) if l > 0 else (-l not in S)
 
@@ -455,6 +480,151 @@ def run_lpconvert(text, ext):
 
 
 # ------------------------------------------------------------------------------------------------
+# independent reader of the smodels numeric format (the WRITTEN program is what the property is about)
+# ------------------------------------------------------------------------------------------------
+class SmError(Exception):
+    pass
+
+
+def read_smodels(data):
+    """smodels text (bytes) -> list of call tuples in the alphabet of props/calls.py, the same representation Prog.add consumes:
+    (1, incremental) then per step (2,), rules, minimize statements (priority = position within the step, first = 0), symbol table
+    entries (8, name, [atom]), the compute statement as ONE (10, [lits]) (B+ a -> a must hold, B- a -> a must not hold; as a filter on
+    stable models this is the constraint reading), externals (`91 a v` / `92 a` / E section) as (9, atom, Value_t), (3,).
+    Rule types 1 2 3 5 6 8 and 90 91 92; anything else raises SmError.  Written from the format description (lparse manual + the
+    clasp extensions), not from the C++ reader."""
+    d = bytes(data)
+    n = len(d)
+    pos = [0]
+
+    def ws():
+        while pos[0] < n and d[pos[0]] in b' \t\r\n':
+            pos[0] += 1
+
+    def num(what):
+        ws()
+        i = pos[0]
+        while pos[0] < n and 48 <= d[pos[0]] <= 57:
+            pos[0] += 1
+        if i == pos[0]:
+            raise SmError(what + '-expected')
+        return int(d[i:pos[0]])
+
+    def atom(what):
+        a = num(what)
+        if not 1 <= a <= INT_MAX:
+            raise SmError(what + '-out-of-range')
+        return a
+
+    def atoms_until_zero(what):
+        r = []
+        while True:
+            a = num(what)
+            if a == 0:
+                return r
+            if a > INT_MAX:
+                raise SmError(what + '-out-of-range')
+            r.append(a)
+
+    def body_lits(ln, neg):
+        if neg > ln or ln > n:
+            raise SmError('body-counts')
+        at = [atom('body-atom') for _ in range(ln)]
+        return [-a if i < neg else a for i, a in enumerate(at)]
+
+    def token(t):
+        ws()
+        if d[pos[0]:pos[0] + len(t)] != t:
+            raise SmError(t.decode() + '-expected')
+        pos[0] += len(t)
+
+    calls = []
+    inc = False
+    steps = 0
+    while True:
+        ws()
+        if pos[0] >= n:
+            break
+        if steps and not inc:
+            raise SmError('input-after-program')
+        step = [(2,)]
+        prio = 0
+        first = True
+        while True:
+            rt = num('rule-type')
+            if rt == 0:
+                break
+            if rt == 1:
+                h = atom('head-atom')
+                ln, neg = num('len'), num('neg')
+                step.append((4, 0, [h], body_lits(ln, neg)))
+            elif rt in (3, 8):
+                hn = num('head-size')
+                if not 1 <= hn <= n:
+                    raise SmError('head-size')
+                hs = [atom('head-atom') for _ in range(hn)]
+                ln, neg = num('len'), num('neg')
+                step.append((4, 1 if rt == 3 else 0, hs, body_lits(ln, neg)))
+            elif rt == 2:
+                h = atom('head-atom')
+                ln, neg, bound = num('len'), num('neg'), num('bound')
+                step.append((5, 0, [h], bound, [(l, 1) for l in body_lits(ln, neg)]))
+            elif rt in (5, 6):
+                h = atom('head-atom') if rt == 5 else None
+                bound, ln, neg = num('bound'), num('len'), num('neg')
+                ls = body_lits(ln, neg)
+                ws_ = [num('weight') for _ in ls]
+                if rt == 5:
+                    step.append((5, 0, [h], bound, list(zip(ls, ws_))))
+                else:
+                    step.append((6, prio, list(zip(ls, ws_))))
+                    prio += 1
+            elif rt == 90:
+                if num('increment') != 0 or not first:
+                    raise SmError('increment-rule')
+                inc = True
+            elif rt == 91:
+                a = atom('external-atom')
+                v = num('external-value')
+                if v not in (0, 1, 2):
+                    raise SmError('external-value')
+                step.append((9, a, {0: 2, 1: 1, 2: 0}[v]))      # file: 0 false, 1 true, 2 free;  Value_t: 0 free, 1 true, 2 false
+            elif rt == 92:
+                step.append((9, atom('external-atom'), 3))
+            else:
+                raise SmError('unknown-rule-type-%d' % rt)
+            first = False
+        if steps and not inc:
+            raise SmError('input-after-program')
+        # symbol table: `atom SP name LF` per line, terminated by a line `0`
+        while True:
+            a = num('symbol-atom')
+            if a == 0:
+                break
+            if a > INT_MAX or pos[0] >= n or d[pos[0]] != 32:
+                raise SmError('symbol-line')
+            e = d.find(b'\n', pos[0])
+            if e < 0:
+                raise SmError('symbol-name-unterminated')
+            step.append((8, d[pos[0] + 1:e], [a]))
+            pos[0] = e + 1
+        token(b'B+')
+        comp = atoms_until_zero('compute-atom')
+        token(b'B-')
+        comp += [-a for a in atoms_until_zero('compute-atom')]
+        step.append((10, comp))
+        ws()
+        if pos[0] < n and d[pos[0]] == 69:      # E section: atoms left open (free externals)
+            pos[0] += 1
+            step += [(9, a, 0) for a in atoms_until_zero('external-section-atom')]
+        num('number-of-models')
+        step.append((3,))
+        calls += step
+        steps += 1
+    return [(1, inc)] + calls
+
+
+# ------------------------------------------------------------------------------------------------
 # the oracle
 # ------------------------------------------------------------------------------------------------
 _CACHE = {}
@@ -473,7 +643,7 @@ def judge(case, obs):
 
 def _judge(case, obs):
     sig = []
-    info = {'sem': False, 'models': 0, 'err': False, 'lpc': False}
+    info = {'sem': False, 'models': 0, 'err': False, 'lpc': False, 'text': False}
     mode, ext, items = decode(case)
     ext = 1 if ext else 0
     ev = parse_obs(obs)
@@ -571,6 +741,10 @@ def _judge(case, obs):
     complete = wf and err_at is None and exp_at is None and all(r is not None for r in res)
     if complete and calls:
         sig += semantic(calls, emitted, gmap, ext, info)
+    # ---- the same judgement on the WRITTEN program (the text the real SmodelsOutput produced behind the real converter) -------
+    # the call-level comparison above cannot see what the writer makes of a call (which rule type it picks, what it drops)
+    if complete and calls and text is not None:
+        sig += written_check(calls, text, gmap, ext, info, 'text')
 
     # ---- lpconvert ---------------------------------------------------------------------------------
     if mode == 2 and wf and aspif_faithful(calls) and text is not None:
@@ -588,6 +762,8 @@ def _judge(case, obs):
                     sig.append('lpconvert:exit-status-differs-from-api-path')
                 elif rc == 0 and out != text:
                     sig.append('lpconvert:output-differs-from-api-path')
+                    if complete and calls:      # (equal texts: the judgement on `text` above IS the judgement on lpconvert's output)
+                        sig += written_check(calls, out, gmap, ext, {}, 'lpconvert-text')
                 elif rc != 0 and b'ERROR' not in errtxt:
                     sig.append('lpconvert:failure-without-a-reported-error')
     out = []
@@ -597,7 +773,25 @@ def _judge(case, obs):
     return out, info
 
 
-def semantic(calls, emitted, gmap, ext, info):
+def written_check(calls, text, gmap, ext, info, tag):
+    """read the written smodels text back with the independent reader and judge it exactly like the emitted calls"""
+    if any(c[0] == 8 and (10 in bytes(c[1]) or 0 in bytes(c[1])) for c in calls):
+        return []       # a name with LF / NUL cannot be carried by the line-based symbol table (names are C strings): not judged
+    try:
+        written = read_smodels(text)
+    except SmError as e:
+        return ['%s:written-program-unreadable:%s' % (tag, e)]
+    sub = {}
+    sig = ['%s:%s' % (tag, x) for x in semantic(calls, written, gmap, ext, sub, ordinal=True)]
+    if sub.get('sem'):
+        info['text'] = True
+    return sig
+
+
+def semantic(calls, emitted, gmap, ext, info, ordinal=False):
+    """`emitted` = the calls the converter made on its output object, or (ordinal=True) the program READ BACK from the text the
+    writer produced: there a minimize statement carries no priority, its position within the step is its rank (first = least
+    significant), so the k-th statement is compared with the k-th smallest input priority."""
     sig = []
     nsteps = sum(1 for c in calls if c[0] == 3)
     if not ext and nsteps > 1:
@@ -623,13 +817,25 @@ def semantic(calls, emitted, gmap, ext, info):
     helpers = any(c[0] in (11, 12) for c in calls)
     if P.negw:
         return sig
+    skip_cost = False
+    if ordinal:
+        if sum(1 for c in emitted if c[0] == 3) != nsteps:
+            sig.append('sem:number-of-steps-differs')
+            return sig
+        prios_in = sorted(set(p for p, _ in P.mins))
+        if [p for p, _ in Q.mins] != list(range(len(prios_in))):
+            sig.append('cost:priorities-not-merged-in-ascending-order')
+            skip_cost = True
+        else:
+            Q.mins = [(prios_in[k], ls) for k, ls in Q.mins]
     pa, qa = P.atoms(), Q.atoms()
     if 0 in pa:
         return sig
     if any(a not in gmap for a in pa):
         return sig          # the case carries no complete probe of the mapping
     # costs: independent of stable models (all interpretations of the minimized atoms)
-    sig += cost_check(P, Q, gmap)
+    if not skip_cost:
+        sig += cost_check(P, Q, gmap)
     # externals (extensions on): same status for atoms that no rule defines
     if ext:
         ph, qh = P.heads(), Q.heads()
@@ -646,8 +852,8 @@ def semantic(calls, emitted, gmap, ext, info):
     if len(qa) > SEM_MAX_ATOMS or len(pa) > SEM_MAX_ATOMS:
         return sig
     info['sem'] = True
-    SP = stable_models(P, pa)
-    SQ = stable_models(Q, qa | {1})
+    SP = stable_models_memo(P, pa)
+    SQ = stable_models_memo(Q, qa | {1})
     info['models'] = len(SP)
     proj = {}
     for S in SQ:
@@ -743,12 +949,73 @@ def g_rule(rnd, na, big=False):
     head = [g_atom(rnd, na, big) for _ in range(hl)]
     if rnd.random() < 0.55:
         return (4, ht, head, [g_lit(rnd, na, big) for _ in range(rnd.choice([0, 1, 2, 2, 3]))])
+    if rnd.random() < 0.15:
+        return g_wrule01(rnd, list(range(1, na + 1)), list(range(1, na + 1)))
     body = [(g_lit(rnd, na, big), rnd.choice([0, 1, 1, 1, 2, 3, 3, INT_MAX] if rnd.random() < 0.3 else [1, 1, 2, 3])) for _ in range(rnd.choice([0, 1, 2, 3, 4]))]
     tot = sum(w for _, w in body)
     bound = rnd.choice([-2, -1, 0, 1, 1, 2, 2, 3, tot, tot + 1, max(tot - 1, 0), INT_MAX])
     if rnd.random() < 0.7:
         bound = max(bound, 0)
     return (5, ht, head, min(bound, INT_MAX), body)
+
+
+def g_wrule01(rnd, body_atoms, head_atoms, form=None, pattern=None):
+    """a weight rule whose weights are all in {0,1}: the boundary between smodels' cardinality rule (type 2, no weights written) and
+    weight rule (type 5).  pattern: all weights 1 | exactly one 0 among 1s | all 0 | random mix;  form: 'single' (one head atom, written
+    directly), 'constraint' (empty head -> false atom, written directly), 'choice' / 'disj' (auxiliary atom for the body).
+    The bound is chosen so that counting a zero-weight literal as 1 (or a 1 as 0) changes whether it can be reached."""
+    form = form or rnd.choice(['single', 'single', 'constraint', 'choice', 'choice', 'disj'])
+    pattern = pattern or rnd.choice(['all1', 'one0', 'one0', 'one0', 'all0', 'mix'])
+    n = rnd.choice([1, 2, 2, 3, 3, 4])
+    ats = [rnd.choice(body_atoms) for _ in range(n)] if rnd.random() < 0.2 else (rnd.sample(body_atoms, n) if n <= len(body_atoms) else [rnd.choice(body_atoms) for _ in range(n)])
+    lits = [-a if rnd.random() < 0.3 else a for a in ats]
+    if pattern == 'all1':
+        ws = [1] * n
+    elif pattern == 'one0':
+        ws = [1] * n
+        ws[rnd.randrange(n)] = 0
+    elif pattern == 'all0':
+        ws = [0] * n
+    else:
+        ws = [rnd.randint(0, 1) for _ in range(n)]
+    ones = sum(ws)
+    bound = rnd.choice([ones + 1, ones + 1, ones, max(ones, 1), 1, n, rnd.randint(0, n + 1)])
+    if form == 'single':
+        ht, head = 0, [rnd.choice(head_atoms)]
+    elif form == 'constraint':
+        ht, head = 0, []
+    elif form == 'choice':
+        ht, head = 1, rnd.sample(head_atoms, rnd.choice([1, 2]) if len(head_atoms) > 1 else 1)
+    else:
+        ht, head = 0, (rnd.sample(head_atoms, 2) if len(head_atoms) > 1 else head_atoms * 2)
+    return (5, ht, head, bound, list(zip(lits, ws)))
+
+
+def g_program01(rnd, ext, form=None):
+    """free body atoms (one choice rule or free externals), 1-3 weight rules with {0,1} weights, every atom shown; final probes"""
+    nb = rnd.choice([2, 2, 3, 3, 4])
+    body_atoms = list(range(1, nb + 1))
+    head_atoms = list(range(nb + 1, nb + 1 + rnd.choice([1, 2, 2])))
+    items = [('call', (1, bool(ext) and rnd.random() < 0.1)), ('call', (2,))]
+    free = list(body_atoms)
+    if rnd.random() < 0.25:
+        x = free.pop(rnd.randrange(len(free)))
+        items.append(('call', (9, x, rnd.choice([0, 0, 1, 2]))))
+    rules = [('call', (4, 1, free, []))] if free else []
+    for _ in range(rnd.choice([1, 1, 2, 3])):
+        rules.append(('call', g_wrule01(rnd, body_atoms, head_atoms, form=form)))
+    if rnd.random() < 0.3:
+        rnd.shuffle(rules)
+    items += rules
+    if rnd.random() < 0.3:
+        items.append(('call', (6, rnd.choice([0, 1]), [(rnd.choice(head_atoms), rnd.choice([1, 2, -1]))])))
+    for a in body_atoms + head_atoms:
+        if rnd.random() < 0.8:
+            items.append(('call', (8, bytes([96 + a]), [a])))
+    items.append(('call', (3,)))
+    for a in sorted(atoms_of(items)):
+        items.append(('get', a))
+    return items
 
 
 def g_min(rnd, na, extreme):
@@ -868,6 +1135,12 @@ def fixed_cases():
             add('fixed-output-named-twice', mode, ext, [(4, 1, [1, 2], []), (8, b'a', [1]), (8, b'b', [1]), (8, b'a', [2]), (8, b'c', [1, -2]), (8, b'd', []), (8, b'e', [-1])])
             add('fixed-weight-split', mode, ext, [(4, 1, [1, 2, 3], []), (5, 1, [4, 5], 2, [(1, 1), (2, 2), (-3, 1)]), (5, 0, [], 3, [(1, 2), (2, 2)]), (5, 0, [6, 7], 1, [(1, 1), (2, 1)]),
                                                  (5, 0, [6], 2, [(1, 1), (2, 1), (3, 1)]), (8, b'x', [6])])
+            # weights in {0,1}: cardinality rule (type 2) only when ALL weights are 1; a zero-weight literal must not count
+            add('fixed-weight01-direct', mode, ext, [(4, 1, [2, 3], []), (5, 0, [1], 1, [(2, 0), (3, 1)]), (8, b'a', [1]), (8, b'b', [2]), (8, b'c', [3])])
+            add('fixed-weight01-direct', mode, ext, [(4, 1, [1, 2, 3], []), (5, 0, [4], 2, [(1, 1), (-2, 0), (3, 1)]), (5, 0, [5], 1, [(1, 0), (2, 0)]),
+                                                     (5, 0, [6], 2, [(1, 1), (2, 1)]), (5, 0, [], 2, [(1, 1), (3, 0)]), (8, b'x', [4]), (8, b'y', [5]), (8, b'z', [6])])
+            add('fixed-weight01-split', mode, ext, [(4, 1, [1, 2], []), (5, 1, [3, 4], 1, [(1, 0), (2, 1)]), (5, 0, [5, 6], 2, [(1, 1), (-2, 0)]), (5, 1, [7], 1, [(1, 0)]),
+                                                    (8, b'p', [3]), (8, b'q', [5]), (8, b'r', [7])])
             add('fixed-negative-bound', mode, ext, [(4, 1, [1], []), (5, 0, [2], -1, [(1, 1)])])
             add('fixed-choice-empty-head', mode, ext, [(4, 1, [], [1]), (5, 1, [], -1, [(2, 1)]), (4, 0, [], [1, -2]), (4, 1, [1, 2], [])])
             add('fixed-project', mode, ext, [(4, 0, [1], []), (7, [1])])
@@ -895,7 +1168,13 @@ def gen(seed, tier):
         if lpc < n_lpc and rnd.random() < 0.12:
             mode = 2
             lpc += 1
-        if r < 0.55:
+        if r < 0.10:
+            form = rnd.choice([None, None, 'single', 'constraint', 'choice', 'disj'])
+            items = g_program01(rnd, ext, form)
+            kind = 'weights01-%s-ext%d' % (form or 'mixed', ext)
+            if mode == 0:
+                mode = 1        # the point of these cases is what the writer makes of the rule
+        elif r < 0.55:
             # small programs for the semantic comparison
             na = rnd.choice([2, 3, 3, 4, 4, 5])
             steps = 1 if (not ext or rnd.random() < 0.75) else rnd.choice([2, 3])
@@ -960,7 +1239,8 @@ LEVEL_TEXT = ('Machine-checked proofs (Coq) about an executable model of Smodels
               '(c02_defext), the weight-rule split (c02_wrule_shape, c02_equiv_weight), output aux atoms (c02_output_*) and externals-as-rules '
               '(c02_external_*: choice rule / facts without the extensions, passed through with them). The model is tied to the code by differential correspondence '
               '(recorder behind the real SmodelsConvert, real SmodelsOutput, get/getName/maxAtom) and an independent brute-force semantic oracle '
-              'that compares the answer sets, shown names, externals and costs of the input with those of what the implementation emitted, '
+              'that compares the answer sets, shown names, externals and costs of the input with those of what the implementation emitted '
+              'and, end to end, with those of the smodels text the real writer produced (read back by an independent python reader), '
               'also through the real lpconvert binary.')
 LEVEL_NOTE = ('Trusted: Coq kernel/vm_compute, extraction+driver (cross-checked), harness, translator, the reference semantics (Sem.v / python). '
               'Full: c02_map, c02_errors, c02_cost, c02_cost_sign, c02_rename_iso, c02_constraint_false, c02_defext, c02_wrule_shape, c02_equiv_weight, '
